@@ -398,9 +398,17 @@ func tStride(P *Prover, loops map[*ssa.BasicBlock]map[*ssa.BasicBlock]bool, idx 
 		if !okInit {
 			continue
 		}
-		J0, I0, okSplit := P.triSplit(P.poly(k0))
+		k0p := P.poly(k0)
+		J0, I0, okSplit := P.triSplit(k0p)
 		if !okSplit {
-			continue
+			// the index continues from where an earlier loop left it: use the affine equalities that
+			// hold where this loop is entered (index = i + v(v-1)/2 and i = v after the row sweep)
+			for _, pred := range K.Block().Preds {
+				if !body[pred] {
+					k0p = P.karrRewrite(k0p, pred)
+				}
+			}
+			J0, I0, okSplit = P.triSplit(k0p)
 		}
 		for _, in := range K.Block().Instrs {
 			J, isPhi := in.(*ssa.Phi)
@@ -415,7 +423,18 @@ func tStride(P *Prover, loops map[*ssa.BasicBlock]map[*ssa.BasicBlock]bool, idx 
 				continue
 			}
 			j0, okJ0 := initOf(J, lj.body)
-			if !okJ0 || P.poly(j0).add(J0, -1).key() != "" {
+			if !okJ0 {
+				continue
+			}
+			if !okSplit || P.poly(j0).add(J0, -1).key() != "" {
+				// the start is not written as J0(J0-1)/2 + I for this loop's first row J0: take
+				// I := start - J0(J0-1)/2 and simplify (floor(A/2) - floor(B/2) = (A-B)/2 when 2 | A-B)
+				jp := P.poly(j0)
+				tri := P.divP(jp.mul(jp).add(jp, -1), 2, false)
+				I0 = P.simplifyDivPairs(k0p.add(tri, -1))
+				J0 = jp
+			}
+			if P.poly(j0).add(J0, -1).key() != "" {
 				continue
 			}
 			good := true
@@ -434,6 +453,58 @@ func tStride(P *Prover, loops map[*ssa.BasicBlock]map[*ssa.BasicBlock]bool, idx 
 	}
 	return nil, nil, false
 }
+
+// simplifyDivPairs: floor(A/c) - floor(B/c) = (A-B)/c whenever c divides every coefficient of A-B
+// (then A = B + c*k and the floors differ by exactly k).
+func (P *Prover) simplifyDivPairs(p Poly) Poly {
+	out := p.clone()
+	for changed := true; changed; {
+		changed = false
+		ms := out.monos()
+		for _, m1 := range ms {
+			if strings.Contains(m1, "*") || out[m1] != 1 {
+				continue
+			}
+			a1 := P.atoms[atoiS(m1)]
+			if a1.kind != aDiv {
+				continue
+			}
+			for _, m2 := range ms {
+				if strings.Contains(m2, "*") || out[m2] != -1 || m2 == m1 {
+					continue
+				}
+				a2 := P.atoms[atoiS(m2)]
+				if a2.kind != aDiv || a2.c != a1.c {
+					continue
+				}
+				d := a1.inner.add(a2.inner, -1)
+				okDiv := true
+				q := Poly{}
+				for k, v := range d {
+					if v%a1.c != 0 {
+						okDiv = false
+						break
+					}
+					q[k] = v / a1.c
+				}
+				if !okDiv {
+					continue
+				}
+				delete(out, m1)
+				delete(out, m2)
+				out = out.add(q, 1)
+				changed = true
+				break
+			}
+			if changed {
+				break
+			}
+		}
+	}
+	return out
+}
+
+func atoiS(s string) int { n, _ := strconv.Atoi(s); return n }
 
 // tRows: the indexed slice is the window rest[:J] of a slice `rest` that starts as a whole
 // packed-triangle array and is advanced by rest = rest[J:] once per trip of a loop whose unit
@@ -574,6 +645,21 @@ func ruleTriX(c *Ctx, files func(string) bool, rule string, exactCell bool) *Rul
 				if P == nil {
 					P = NewProver(c, fn)
 					loops = loopsOf(fn)
+					// methods of the representation take vertex numbers: non-negative by the callers' contract
+					// (the assumption stated for C05; the rule already reads a parameter column as >= 0)
+					if recv := fn.Signature.Recv(); recv != nil {
+						rt := recv.Type()
+						if pt, isP := rt.Underlying().(*types.Pointer); isP {
+							rt = pt.Elem()
+						}
+						if types.Identical(rt, denseT) {
+							for _, prm := range fn.Params[1:] {
+								if isInt(prm.Type()) {
+									P.global = append(P.global, P.poly(prm).scale(-1))
+								}
+							}
+						}
+					}
 				}
 				name := c.short(fn)
 				src := c.srcAt(ia.Pos())
@@ -1405,6 +1491,7 @@ func ruleRegrow(c *Ctx, pkgRel string) *RuleResult {
 				r.inst("%s: %s grown in place up to %s", c.short(fn), fname, valName(sl.High))
 				// initialisation: a sweep up to HIGH, or a bulk copy/clear/append into the storage
 				okInit := false
+				var PP *Prover
 				for _, b2 := range fn.Blocks {
 					if !dom(b, b2) {
 						continue
@@ -1419,13 +1506,36 @@ func ruleRegrow(c *Ctx, pkgRel string) *RuleResult {
 							if !(ia.X == ssa.Value(sl) || same(fieldOf(ia.X), fa)) {
 								continue
 							}
-							phi, ok := ia.Index.(*ssa.Phi)
-							if !ok {
+							if phi, ok := ia.Index.(*ssa.Phi); ok {
+								// the loop condition of the phi's block compares it with HIGH
+								if iff, ok := phi.Block().Instrs[len(phi.Block().Instrs)-1].(*ssa.If); ok {
+									if bo, ok := iff.Cond.(*ssa.BinOp); ok && (bo.Op == token.LSS || bo.Op == token.LEQ || bo.Op == token.NEQ) && bo.X == ssa.Value(phi) && sameValue(bo.Y, sl.High) {
+										okInit = true
+									}
+								}
 								continue
 							}
-							// the loop condition of the phi's block compares it with HIGH
-							if iff, ok := phi.Block().Instrs[len(phi.Block().Instrs)-1].(*ssa.If); ok {
-								if bo, ok := iff.Cond.(*ssa.BinOp); ok && (bo.Op == token.LSS || bo.Op == token.LEQ || bo.Op == token.NEQ) && bo.X == ssa.Value(phi) && sameValue(bo.Y, sl.High) {
+							// index = offset + counter with the counter running to a bound B: the sweep ends at
+							// offset + B, which must be the new length (edges[rowStart+i] = 0 for i < n, newSize = rowStart+n)
+							if PP == nil {
+								PP = NewProver(c, fn)
+							}
+							ip := PP.poly(ia.Index)
+							for _, ph := range PP.phisIn(ip) {
+								iff, ok := ph.Block().Instrs[len(ph.Block().Instrs)-1].(*ssa.If)
+								if !ok {
+									continue
+								}
+								bo, ok := iff.Cond.(*ssa.BinOp)
+								if !ok || bo.X != ssa.Value(ph) || (bo.Op != token.LSS && bo.Op != token.NEQ) {
+									continue
+								}
+								coef := ip[itoa(PP.atomIDOf(ph))]
+								if coef != 1 {
+									continue
+								}
+								end := ip.add(PP.poly(ph), -1).add(PP.poly(bo.Y), 1)
+								if end.add(PP.poly(sl.High), -1).key() == "" {
 									okInit = true
 								}
 							}
